@@ -4,7 +4,7 @@
    check_spec : every observation agrees with the mapping the (current) scope denotes / with volatility /
                 with the rebuilt scope — computed from Spec.v only. *)
 From Coq Require Import ZArith NArith QArith Bool List.
-Require Import QV.common.Util QV.C13.Model QV.C13.Spec.
+Require Import QV.common.Util QV.C13.Model QV.C13.Pure QV.C13.Spec.
 Import ListNotations.
 
 Inductive case :=
@@ -43,7 +43,9 @@ Definition obs_eqb (a b : obs) : bool :=
 
 Definition check_corr (c : case) : bool :=
   match c with
-  | CHist s ops impl => list_eqb obs_eqb (run (s, cempty) ops) impl
+  | CHist s ops impl =>
+      list_eqb obs_eqb (run (s, cempty) ops) impl       (* the model with memoisation fields as state *)
+      && list_eqb obs_eqb (prun s ops) impl             (* the same access paths without any memoisation *)
   | CCrash => false
   end.
 
